@@ -83,11 +83,13 @@ def zeroJ : Leaf → J
 
 def isDigits (cs : List Char) : Bool := !cs.isEmpty && cs.all Char.isDigit
 
-/-- a JSON number token that strconv.ParseInt accepts (no fraction, no exponent; range not modelled: ≤ 18 digits) -/
+def digitsVal (cs : List Char) : Nat := cs.foldl (fun n c => 10 * n + (c.toNat - 48)) 0
+
+/-- a JSON number token that strconv.ParseInt(…, 10, 64) accepts: no fraction, no exponent, within int64 -/
 def isIntTok (tok : String) : Bool :=
   match tok.toList with
-  | '-' :: ds => isDigits ds && ds.length ≤ 18
-  | ds => isDigits ds && ds.length ≤ 18
+  | '-' :: ds => isDigits ds && digitsVal ds ≤ 9223372036854775808
+  | ds => isDigits ds && digitsVal ds ≤ 9223372036854775807
 
 def decLeaf (k : Leaf) (j : J) : Except Err Val :=
   match k, j with
